@@ -173,3 +173,25 @@ func vH_C11_shaped_2cred_small() {
 		vAssert(m0 || m1, "credentials configured => the presented user AND password equal ONE configured pair")
 	}
 }
+
+// Empty fields: one configured credential (non-empty 1-byte user and password),
+// the client presents a user of length 0..1 and a password of length 0..1
+// (RFC 1929 asks for 1..255, the parser accepts 0): success => the presented
+// pair equals the configured one - an unknown or empty user with an empty
+// password is never let in.
+func vH_C11_shaped_empty() {
+	u, p := vNondetBytes("cred.user", 1), vNondetBytes("cred.pass", 1)
+	creds := []Credential{{User: string(u), Password: string(p)}}
+	for ul := 0; ul <= 1; ul++ {
+		for pl := 0; pl <= 1; pl++ {
+			s := &Server{config: &Config{AuthOpts: Auth{IngressCredentials: creds}}}
+			in := vNondetBytes("in", 3+2+ul+1+pl)
+			vAssume(in[0] == 5 && in[1] == 1 && int(in[4]) == ul && int(in[5+ul]) == pl)
+			conn := &vFakeConn{in: in}
+			if s.handleAuthentication(conn) != nil {
+				continue
+			}
+			vAssert(ul == 1 && pl == 1 && in[5] == u[0] && in[7] == p[0], "credentials configured => only the configured (non-empty) pair is accepted")
+		}
+	}
+}
